@@ -269,7 +269,7 @@ pub fn subs() -> Vec<Box<dyn Sub>> {
             rule: "DynSizedStructure::<H>::ref_from_slice and BytesRef::<H>::try_from for H in {DummyTestHeader, TagHeader, BootInformationHeader, HeaderTagHeader, Multiboot2BasicHeader}. Enumerated completely: slice length 0..=56 (thorough 88) x start misalignment 0..=7 x declared size 0..=len+16. Generated: lengths to 4096, declared sizes around the length / tiny / random. Oracle: error precedence of the statement, then address/header/payload/size_of_val equalities. Non-trivial = every case except (valid, declared == len); distinct by (header, len, misalignment, declared)",
             profiles: Profiles::Both,
             quick: 40000,
-            thorough: 600000,
+            thorough: 3000000,
             strategy,
             enumerate: Some(enumerate),
             enum_exhaustive: false,
